@@ -115,6 +115,8 @@ pub fn mem_equals_snapshot() -> bool {
 pub fn on_panic(kind: u32, _line: u32) {
     unsafe {
         kani::cover!(true, "COVER:panic-hook");
+        // a site the extractor could not classify (new panic in a place it does not know): undecided, not a violation
+        assert!(kind != 0, "UNCLASSIFIED explicit panic site reached (the extractor does not know what kind of refusal this is)");
         assert!(kind < 32 && (ALLOW & bit(kind)) != 0, "OBL:panic.kind: an explicit panic of a kind this obligation does not allow was raised");
         assert!(JUSTIFIED, "OBL:panic.justified: the library refused although the obligation's acceptance condition holds");
         if NEED_NO_EVENTS {
